@@ -779,6 +779,8 @@ class C10(Prop):
         s = np.array([float(Fraction(x)) for x in case["s"]], dtype=float)
         s_in = s.copy()
         ob = {"verdict": verdict}
+        import dataclasses
+        p_before = dataclasses.asdict(p) if dataclasses.is_dataclass(p) else dict(vars(p))
         try:
             with warnings.catch_warnings():
                 warnings.simplefilter("ignore")
@@ -786,7 +788,11 @@ class C10(Prop):
                     new_s, s_trunc = truncate_singular_values(s, p)
             ob["new"] = [float(x) for x in np.asarray(new_s).tolist()]
             ob["trunc"] = [float(x) for x in np.asarray(s_trunc).tolist()]
-            ob["input_unchanged"] = bool(np.array_equal(s, s_in))
+            p_after = dataclasses.asdict(p) if dataclasses.is_dataclass(p) else dict(vars(p))
+            # the caller's parameter object is shared between calls (it is even a default argument of
+            # split_node_svd / contr_truncated_svd_splitting): a call must not change it
+            same = all((p_before[k] == p_after[k]) or (p_before[k] != p_before[k] and p_after[k] != p_after[k]) for k in p_before)
+            ob["input_unchanged"] = bool(np.array_equal(s, s_in)) and same and set(p_before) == set(p_after)
         except Exception as e:  # noqa
             ob["exception"] = f"{type(e).__name__}: {e}"
         return ob
